@@ -47,7 +47,8 @@ using vos::S;
 namespace {
 
 struct Op { int code; std::vector<long long> a; long long arg(size_t i) const { return i < a.size() ? a[i] : 0; } };
-struct Case { std::string id; std::vector<Op> ops; std::deque<vos::Ev> script; std::map<long long, long long> faults; };
+struct Case { std::string id; std::vector<Op> ops; std::deque<vos::Ev> script; std::map<long long, long long> faults;
+              std::vector<std::pair<long long, long long>> rules; };
 using V = std::vector<long long>;
 
 constexpr long long EPOCH_NS = 1000000000000ll;   // see vos.cpp clock_gettime
@@ -728,6 +729,7 @@ void run_case(Case const &c)
   vos::reset();
   S.script = c.script;
   S.faults = c.faults;
+  S.rules = c.rules;
   // blocks
   std::vector<Op> top;
   std::optional<long long> cur;
@@ -791,7 +793,7 @@ int main()
     if(tag == "C") { cur = Case(); std::getline(is, cur.id); if(!cur.id.empty() && cur.id[0] == ' ') cur.id.erase(0, 1); }
     else if(tag == "O") { Op o; is >> o.code; long long v; while(is >> v) o.a.push_back(v); cur.ops.push_back(o); }
     else if(tag == "E") { vos::Ev e; is >> e.code; long long v; while(is >> v) e.a.push_back(v); cur.script.push_back(e); }
-    else if(tag == "F") { long long i, e; is >> i >> e; cur.faults[i] = e; }
+    else if(tag == "F") { long long i, e; is >> i >> e; if(i < 0) cur.rules.emplace_back(i, e); else if(!cur.faults.count(i)) cur.faults[i] = e; }
     else if(tag == "X") run_isolated(cur);
   }
   return 0;
